@@ -403,8 +403,15 @@ Definition init_step (g : fs_cfg) (pfx : Z) (lv : nat) : list cop :=
   OWrite (NResult pfx false lv) [] KEmpty ::
   (if fg_decoys g then [OWrite (NResult pfx true lv) [] KEmpty] else []).
 
-Lemma inits_eq : forall g pfx, fs_result_inits g pfx false = flat_map (init_step g pfx) (seq 0 (fg_nlevels g)).
+Lemma res_levels_noprot : forall g, fg_proteins g = false -> fs_res_levels g = seq 0 (fg_nlevels g).
+Proof. intros g H; unfold fs_res_levels; rewrite H; reflexivity. Qed.
+
+Lemma inits_eq_gen : forall g pfx, fs_result_inits g pfx false = flat_map (init_step g pfx) (fs_res_levels g).
 Proof. reflexivity. Qed.
+
+Lemma inits_eq : forall g pfx, fg_proteins g = false ->
+  fs_result_inits g pfx false = flat_map (init_step g pfx) (seq 0 (fg_nlevels g)).
+Proof. intros g pfx H. rewrite inits_eq_gen, (res_levels_noprot g H). reflexivity. Qed.
 
 Lemma init_steps_wf : forall g pfx l W, cwf W (flat_map (init_step g pfx) l) = true.
 Proof.
@@ -605,9 +612,13 @@ Definition result_step (g : fs_cfg) (pfx : Z) (il : nat * list cf_row) : list co
            (seq 0 (length (pc_chunks (fg_c g) rows)))
   ++ [OUnlink (NLevel lv (fg_ext g))].
 
-Lemma result_ops_eq : forall g pfx levels,
-  fs_result_ops g pfx levels = flat_map (result_step g pfx) (combine (seq 0 (fg_nlevels g)) levels).
+Lemma result_ops_eq_gen : forall g pfx levels,
+  fs_result_ops g pfx levels = flat_map (result_step g pfx) (combine (fs_res_levels g) levels).
 Proof. reflexivity. Qed.
+
+Lemma result_ops_eq : forall g pfx levels, fg_proteins g = false ->
+  fs_result_ops g pfx levels = flat_map (result_step g pfx) (combine (seq 0 (fg_nlevels g)) levels).
+Proof. intros g pfx levels H. rewrite result_ops_eq_gen, (res_levels_noprot g H). reflexivity. Qed.
 
 Lemma result_appends : forall g pfx lv bs W,
   fs_mem (NResult pfx false lv) W = true -> (fg_decoys g = true -> fs_mem (NResult pfx true lv) W = true) ->
@@ -717,7 +728,7 @@ Qed.
 (* created / removed names of the phases *)
 Lemma inits_created : forall g pfx ap, forallb is_result (created (fs_result_inits g pfx ap)) = true.
 Proof.
-  intros g pfx [|]; [reflexivity|]. rewrite inits_eq. apply created_flat_map_forall.
+  intros g pfx [|]; [reflexivity|]. rewrite inits_eq_gen. apply created_flat_map_forall.
   intros lv _; unfold init_step; destruct (fg_decoys g); reflexivity.
 Qed.
 
@@ -755,8 +766,8 @@ Qed.
 
 Lemma result_ops_created : forall g pfx levels, created (fs_result_ops g pfx levels) = [].
 Proof.
-  intros g pfx levels. rewrite result_ops_eq.
-  induction (combine (seq 0 (fg_nlevels g)) levels) as [|[lv rows] r IH]; cbn [flat_map]; [reflexivity|].
+  intros g pfx levels. rewrite result_ops_eq_gen.
+  induction (combine (fs_res_levels g) levels) as [|[lv rows] r IH]; cbn [flat_map]; [reflexivity|].
   rewrite created_app, IH, app_nil_r. unfold result_step. rewrite created_app. cbn. rewrite app_nil_r.
   induction (seq 0 (length (pc_chunks (fg_c g) rows))) as [|b bs IHb]; cbn; [reflexivity|].
   destruct (fg_decoys g); cbn; exact IHb.
@@ -788,22 +799,24 @@ Definition results_in (g : fs_cfg) (pfx : Z) (W : list fname) : Prop :=
   forall lv, (lv < fg_nlevels g)%nat ->
     fs_mem (NResult pfx false lv) W = true /\ (fg_decoys g = true -> fs_mem (NResult pfx true lv) W = true).
 
-Lemma coll_ops_shape : forall g ap cl, fg_glob g = false ->
+Lemma coll_ops_shape : forall g ap cl, fg_glob g = false -> fg_proteins g = false ->
   fs_coll_ops g ap cl =
   fs_result_inits g (fc_pfx cl) ap ++ fs_chunk_ops g (fc_pfx cl) (fc_rows cl) ++
   (fs_level_ops g (fc_pfx cl) (fc_rows cl) ++ map OUnlink (fs_chunk_names g (fc_pfx cl) (fc_rows cl))) ++
   fs_result_ops g (fc_pfx cl)
     (cf_levels cf_row cf_score cf_lkey (fg_c g) (fg_dedup g) (fg_dedup g) (fg_nlevels g) (fc_rows cl)).
-Proof. intros g ap cl H; unfold fs_coll_ops; rewrite H; reflexivity. Qed.
+Proof.
+  intros g ap cl H Hp; unfold fs_coll_ops, fs_prot_ops, fs_prot_levels; rewrite H, Hp. cbn [app]. rewrite app_nil_r. reflexivity.
+Qed.
 
-Lemma coll_ops_wf : forall g ap cl W, fg_glob g = false ->
+Lemma coll_ops_wf : forall g ap cl W, fg_glob g = false -> fg_proteins g = false ->
   (ap = true -> results_in g (fc_pfx cl) W) ->
   cwf W (fs_coll_ops g ap cl) = true /\
   results_in g (fc_pfx cl) (cowned W (fs_coll_ops g ap cl)) /\
   (forall n, is_result n = true -> fs_mem n W = true -> fs_mem n (cowned W (fs_coll_ops g ap cl)) = true) /\
   (forall n, is_result n = false -> fs_mem n W = false -> fs_mem n (cowned W (fs_coll_ops g ap cl)) = false).
 Proof.
-  intros g ap cl W Hg Hap. rewrite (coll_ops_shape g ap cl Hg).
+  intros g ap cl W Hg Hp Hap. rewrite (coll_ops_shape g ap cl Hg Hp).
   set (pfx := fc_pfx cl). set (rows := fc_rows cl).
   set (A := fs_result_inits g pfx ap). set (B := fs_chunk_ops g pfx rows).
   set (C := fs_level_ops g pfx rows). set (names := fs_chunk_names g pfx rows).
@@ -814,7 +827,7 @@ Proof.
   assert (R1 : results_in g pfx W1).
   { intros lv Hlv. destruct ap.
     - unfold W1, A; cbn. apply (Hap eq_refl); exact Hlv.
-    - unfold W1, A. rewrite inits_eq. split; [|intro Hd];
+    - unfold W1, A. rewrite (inits_eq g pfx Hp). split; [|intro Hd];
         apply init_steps_owned; try (apply in_seq; lia); [discriminate | intros _; exact Hd]. }
   assert (S12 : fs_sub W1 W2) by (apply owned_sub; unfold B; rewrite chunk_ops_eq; apply chunk_steps_removed).
   assert (N2 : forall n, In n names -> fs_mem n W2 = true) by (intros n Hn; apply chunk_ops_owned; exact Hn).
@@ -836,7 +849,7 @@ Proof.
   { apply nodup_fst_combine, seq_NoDup. }
   { intros lv rws Hin. apply in_combine_l in Hin. apply in_seq in Hin.
     destruct (R4 lv) as [H0 H1]; [lia|]. repeat split; [exact H0 | exact H1 | apply L4; lia]. }
-  rewrite <- result_ops_eq in WfE, RmE. fold E in WfE, RmE.
+  rewrite <- (result_ops_eq g pfx levels Hp) in WfE, RmE. fold E in WfE, RmE.
   (* assemble *)
   rewrite !wf_ops_app, !owned_after_app. fold W1 W2 W3 W4.
   assert (RmAll : forall n, is_result n = true ->
@@ -867,7 +880,7 @@ Proof.
       * (* one of this run's level files: removed in phase E *)
         apply level_ops_created in EC. destruct EC as [lv [Hlv ->]].
         apply removed_not_owned; [|unfold E; rewrite result_ops_created; reflexivity].
-        unfold E. rewrite result_ops_eq.
+        unfold E. rewrite (result_ops_eq g pfx levels Hp).
         assert (Hin : In (lv, nth lv levels []) (combine (seq 0 (fg_nlevels g)) levels)).
         { assert (Hl : length levels = fg_nlevels g) by apply cf_levels_length.
           rewrite <- Hl. rewrite <- Hl in Hlv.
@@ -882,21 +895,21 @@ Proof.
 Qed.
 
 (* ---- the whole run ---- *)
-Lemma colls_ops_wf : forall g cls seen W, fg_glob g = false -> fg_append g = false ->
+Lemma colls_ops_wf : forall g cls seen W, fg_glob g = false -> fg_append g = false -> fg_proteins g = false ->
   (seen = true -> results_in g 0 W) ->
   cwf W (fs_colls_ops g seen cls) = true /\
   (forall cl, In cl cls -> results_in g (fc_pfx cl) (cowned W (fs_colls_ops g seen cls))) /\
   (forall n, is_result n = true -> fs_mem n W = true -> fs_mem n (cowned W (fs_colls_ops g seen cls)) = true) /\
   (forall n, is_result n = false -> fs_mem n W = false -> fs_mem n (cowned W (fs_colls_ops g seen cls)) = false).
 Proof.
-  intros g cls; induction cls as [|cl r IH]; intros seen W Hg Ha Hseen; cbn [fs_colls_ops].
+  intros g cls; induction cls as [|cl r IH]; intros seen W Hg Ha Hp Hseen; cbn [fs_colls_ops].
   - cbn. split; [reflexivity|]. split; [intros cl []|]. split; intros n _ H; exact H.
   - rewrite Ha. cbn [orb].
     assert (Hap' : (seen && (fc_pfx cl =? 0))%bool = true -> results_in g (fc_pfx cl) W).
     { intro E. apply andb_true_iff in E. destruct E as [E1 E2]. apply Z.eqb_eq in E2. rewrite E2. apply Hseen; exact E1. }
-    destruct (coll_ops_wf g (seen && (fc_pfx cl =? 0))%bool cl W Hg Hap') as [Wf1 [Res1 [Keep1 Out1]]].
+    destruct (coll_ops_wf g (seen && (fc_pfx cl =? 0))%bool cl W Hg Hp Hap') as [Wf1 [Res1 [Keep1 Out1]]].
     set (W1 := cowned W (fs_coll_ops g (seen && (fc_pfx cl =? 0))%bool cl)) in *.
-    destruct (IH (seen || (fc_pfx cl =? 0))%bool W1 Hg Ha) as [Wf2 [Res2 [Keep2 Out2]]].
+    destruct (IH (seen || (fc_pfx cl =? 0))%bool W1 Hg Ha Hp) as [Wf2 [Res2 [Keep2 Out2]]].
     { intro E. apply orb_true_iff in E. destruct E as [E|E].
       - intros lv Hlv. destruct (Hseen E lv Hlv) as [A B]. split; [|intro Hd]; apply Keep1; auto.
       - apply Z.eqb_eq in E. rewrite <- E. exact Res1. }
@@ -907,20 +920,20 @@ Proof.
     + intros n Hn HW. apply Out2; [exact Hn|]. apply Out1; assumption.
 Qed.
 
-Definition run_ok (g : fs_cfg) : Prop := fg_glob g = false /\ fg_append g = false.
+Definition run_ok (g : fs_cfg) : Prop := fg_glob g = false /\ fg_append g = false /\ fg_proteins g = false.
 
 Theorem run_ops_wf : forall g, run_ok g -> cwf [] (fs_run_ops g) = true.
 Proof.
-  intros g [Hg Ha]. unfold fs_run_ops.
-  apply (colls_ops_wf g (fg_colls g) false [] Hg Ha). discriminate.
+  intros g [Hg [Ha Hp]]. unfold fs_run_ops.
+  apply (colls_ops_wf g (fg_colls g) false [] Hg Ha Hp). discriminate.
 Qed.
 
 Lemma result_names_owned : forall g, run_ok g ->
   forall n, In n (fs_result_names g) -> fs_mem n (cowned [] (fs_run_ops g)) = true.
 Proof.
-  intros g [Hg Ha] n Hn. unfold fs_run_ops.
-  destruct (colls_ops_wf g (fg_colls g) false [] Hg Ha) as [_ [Res _]]; [discriminate|].
-  unfold fs_result_names in Hn. apply in_flat_map in Hn. destruct Hn as [cl [Hcl Hn]].
+  intros g [Hg [Ha Hp]] n Hn. unfold fs_run_ops.
+  destruct (colls_ops_wf g (fg_colls g) false [] Hg Ha Hp) as [_ [Res _]]; [discriminate|].
+  unfold fs_result_names in Hn. rewrite (res_levels_noprot g Hp) in Hn. apply in_flat_map in Hn. destruct Hn as [cl [Hcl Hn]].
   apply in_flat_map in Hn. destruct Hn as [lv [Hlv Hn]]. apply in_seq in Hlv.
   destruct (Res cl Hcl lv) as [A B]; [lia|].
   destruct Hn as [<-|Hn]; [exact A|].
@@ -930,8 +943,8 @@ Qed.
 Lemma only_results_owned : forall g, run_ok g ->
   forall n, is_result n = false -> fs_mem n (cowned [] (fs_run_ops g)) = false.
 Proof.
-  intros g [Hg Ha] n Hn. unfold fs_run_ops.
-  destruct (colls_ops_wf g (fg_colls g) false [] Hg Ha) as [_ [_ [_ Out]]]; [discriminate|].
+  intros g [Hg [Ha Hp]] n Hn. unfold fs_run_ops.
+  destruct (colls_ops_wf g (fg_colls g) false [] Hg Ha Hp) as [_ [_ [_ Out]]]; [discriminate|].
   apply Out; [exact Hn | reflexivity].
 Qed.
 
@@ -990,23 +1003,23 @@ Proof.
   rewrite E. apply touched_flat_map_forall; exact H.
 Qed.
 
-Theorem run_touches_own_files : forall g, fg_glob g = false ->
+Theorem run_touches_own_files : forall g, fg_glob g = false -> fg_proteins g = false ->
   forallb run_file (touched cfn (fs_run_ops g)) = true.
 Proof.
-  intros g Hg. unfold fs_run_ops. generalize false as seen.
+  intros g Hg Hp. unfold fs_run_ops. generalize false as seen.
   induction (fg_colls g) as [|cl r IH]; intro seen; cbn [fs_colls_ops]; [reflexivity|].
   rewrite touched_app, forallb_app, IH, andb_true_r.
   set (ap := (fg_append g || (seen && (fc_pfx cl =? 0)))%bool).
-  rewrite (coll_ops_shape g ap cl Hg), !touched_app, !forallb_app.
+  rewrite (coll_ops_shape g ap cl Hg Hp), !touched_app, !forallb_app.
   repeat (apply andb_true_iff; split).
-  - destruct ap; [reflexivity|]. rewrite inits_eq. apply touched_flat_map_forall.
+  - destruct ap; [reflexivity|]. rewrite inits_eq_gen. apply touched_flat_map_forall.
     intros lv _; unfold init_step; destruct (fg_decoys g); reflexivity.
   - rewrite chunk_ops_eq. apply touched_flat_map_forall.
     intros [i ch] _; unfold chunk_step; destruct (fg_ext g); reflexivity.
   - unfold fs_level_ops. rewrite touched_app, forallb_app. apply andb_true_iff; split;
       apply touched_map_forall; intros; reflexivity.
   - apply touched_map_forall. intros n Hn. apply chunk_names_are_chunks in Hn. cbn. unfold run_file. rewrite Hn. reflexivity.
-  - rewrite result_ops_eq. apply touched_flat_map_forall. intros [lv rows] _. unfold result_step.
+  - rewrite result_ops_eq_gen. apply touched_flat_map_forall. intros [lv rows] _. unfold result_step.
     rewrite touched_app, forallb_app. apply andb_true_iff; split; [|reflexivity].
     apply touched_flat_map_forall. intros b _. destruct (fg_decoys g); reflexivity.
 Qed.
@@ -1016,7 +1029,8 @@ Definition gl_row (id spec : Z) (t : bool) (sc : Z) : cf_row :=
   {| cf_id := id; cf_spec := spec; cf_keys := [id]; cf_target := t; cf_score := sc |}.
 Definition gl_cfg (glob : bool) : fs_cfg :=
   {| fg_ext := false; fg_c := 10; fg_dedup := true; fg_nlevels := 1; fg_decoys := false; fg_append := false;
-     fg_glob := glob; fg_colls := [ {| fc_pfx := 0; fc_rows := [gl_row 1 1 true 5; gl_row 2 2 true 3] |} ] |}.
+     fg_glob := glob; fg_proteins := false;
+     fg_colls := [ {| fc_pfx := 0; fc_rows := [gl_row 1 1 true 5; gl_row 2 2 true 3]; fc_prot := None |} ] |}.
 (* a chunk file left behind by an earlier run that was killed: index 5, a foreign PSM *)
 Definition gl_stale : cfs := [ (NChunk 0 5 false, fs_plain [gl_row 99 99 true 4]) ].
 
